@@ -3,6 +3,8 @@
 package osmpbf
 
 import (
+	"context"
+
 	"github.com/paulmach/osm"
 )
 
@@ -130,4 +132,45 @@ func c08Run(m *mBlock, skip int, useFilter bool) {
 	vAssert(sawOK, "filter-saw-fully-decoded-element")
 	// compared at the end of the block: rejected elements' memory has been reused by now
 	vAssert(vSame(objs, want), "exact-unmodified-subsequence")
+}
+
+// VerifH_C08_pipeline: filtering through the whole scanner (reader, decoders,
+// serializer): a file of node blocks, FilterNode an arbitrary predicate (a fresh
+// symbolic bool per offered node) or SkipNodes; blocks whose every element is
+// rejected are still blocks: the kept nodes arrive in file order, none lost.
+func VerifH_C08_pipeline() {
+	procs := vRange("procs", 1, vParam("maxProcs", 2))
+	nb := vRange("blocks", 1, vParam("maxBlocks", 3))
+	c := c09Build(nb, vParam("maxNodes", 1), true)
+	sc := New(context.Background(), &vReader{data: c.f.data}, procs)
+	skip := vRange("skipNodes", 0, 1) == 1
+	var want []osm.Object
+	if skip {
+		sc.SkipNodes = true
+	} else {
+		// decided before the scan so that every decoder goroutine sees the same predicate
+		keep := map[osm.NodeID]bool{}
+		for i, o := range c.want {
+			for _, p := range c.want[:i] {
+				vAssume(p.(*osm.Node).ID != o.(*osm.Node).ID) // the predicate is a function of the id
+			}
+			k := vBool("keep")
+			keep[o.(*osm.Node).ID] = k
+			if k {
+				want = append(want, o)
+			}
+		}
+		sc.FilterNode = func(n *osm.Node) bool { return keep[n.ID] }
+	}
+	var got []osm.Object
+	for sc.Scan() {
+		got = append(got, sc.Object())
+		if len(got) > len(c.want) {
+			break
+		}
+	}
+	vReach("scanned")
+	vAssert(sc.Err() == nil, "no-error")
+	vAssert(vSame(got, want), "kept-elements-in-file-order")
+	sc.Close()
 }
